@@ -112,6 +112,7 @@ def corruptions():
         ("claim-asked-again", "ApiTrace", lambda d: d["e"] == "Complete" and "lastnull" in d, lambda d: d.__setitem__("lastnull", 1 - d["lastnull"])),
         ("app-buffer-flag", "ApiTrace", lambda d: d["e"] == "Recv", setf("app_ok", 0)),
         ("leak-count", "ApiTrace", lambda d: d["e"] == "Release", setf("leak", 1)),
+        ("library-freed-app-symbol", "ApiTrace", lambda d: d["e"] == "Release", setf("libfreed", 1)),
         ("foreign-free", "ApiTrace", lambda d: d["e"] == "Release", setf("ff", 1)),
         ("built-repair-symbol", "ApiTrace", lambda d: d["e"] == "Build" and "v" in d, build_vec),
         ("build-slot-origin", "ApiTrace", lambda d: d["e"] == "Build" and d.get("o") == "lib", setf("o", "app")),
